@@ -607,6 +607,42 @@ func checkPostRender(c *Ctx, gen *packages.Package) {
 	if wd := load.FuncDecl(gen, "GenOpts.write"); wd == nil {
 		c.Anchor(rule, "generator.GenOpts.write", "not found")
 	} else {
+		// the rendered content and what is derived from it, followed by object
+		tracked := map[types.Object]bool{}
+		for round := 0; round < 3; round++ {
+			ast.Inspect(wd.Body, func(n ast.Node) bool {
+				as, ok := n.(*ast.AssignStmt)
+				if !ok || len(as.Rhs) != 1 || len(as.Lhs) < 1 {
+					return true
+				}
+				from := false
+				switch r := ast.Unparen(as.Rhs[0]).(type) {
+				case *ast.CallExpr:
+					if goan.LastSel(r.Fun) == "render" {
+						from = true
+					}
+					if goan.LastSel(r.Fun) == "FormatContent" {
+						for _, a := range r.Args {
+							if id, ok := ast.Unparen(a).(*ast.Ident); ok && tracked[info.Uses[id]] {
+								from = true
+							}
+						}
+					}
+				case *ast.Ident:
+					from = tracked[info.Uses[r]]
+				}
+				if from {
+					if id, ok := as.Lhs[0].(*ast.Ident); ok {
+						if o := info.Defs[id]; o != nil {
+							tracked[o] = true
+						} else if o := info.Uses[id]; o != nil {
+							tracked[o] = true
+						}
+					}
+				}
+				return true
+			})
+		}
 		var calls []string
 		ast.Inspect(wd.Body, func(n ast.Node) bool {
 			call, ok := n.(*ast.CallExpr)
@@ -614,7 +650,7 @@ func checkPostRender(c *Ctx, gen *packages.Package) {
 				return true
 			}
 			for _, a := range call.Args {
-				if id, ok := ast.Unparen(a).(*ast.Ident); ok && (id.Name == "content" || id.Name == "formatted") {
+				if id, ok := ast.Unparen(a).(*ast.Ident); ok && tracked[info.Uses[id]] {
 					name := goan.LastSel(call.Fun)
 					if id2, ok := call.Fun.(*ast.Ident); ok {
 						name = id2.Name
